@@ -21,9 +21,27 @@ Definition foreign_exc_remainder : list (string * string) := [
   ("kmip/services/kmip_client.py", "KMIPProxy.open");                         (* connection error text *)
   ("kmip/services/server/crypto/engine.py", "CryptographyEngine.create_symmetric_key");
   ("kmip/services/server/crypto/engine.py", "CryptographyEngine.mac");
-  ("kmip/services/server/crypto/engine.py", "CryptographyEngine._encrypt_symmetric");
-  ("kmip/services/server/crypto/engine.py", "CryptographyEngine._decrypt_symmetric");
+  ("kmip/services/server/crypto/engine.py", "CryptographyEngine._encrypt_symmetric");  (* logger.exception: invalid key bytes *)
+  (* f8d262f / f56c8fe / 832c54a: the text of a `cryptography` exception is embedded in a result message (reaches
+     the CLIENT) and its traceback is logged at ERROR.  Reviewed by experiment under canary keys / IVs / nonces /
+     AAD / plaintext / ciphertext / tags / salts / derivation data (history engine-backend-refusals): the texts
+     are literal statements about sizes and support ("Invalid IV size (7) for CBC.", "min_tag_length must be >= 4",
+     "The length of the provided data is not a multiple of the block length.", "Invalid padding bytes.",
+     "Authentication tag cannot be more than 16 bytes.", "cipher 3DES in GCM mode is not supported", InvalidTag
+     (empty), "iterations must be greater than or equal to 1.", "Cannot derive keys larger than 8160 octets.",
+     "Please specify an llen"); tracebacks show source lines, not values.  Not enumerable by the model. *)
+  ("kmip/services/server/crypto/engine.py", "CryptographyEngine._encrypt_symmetric");  (* InvalidField: mode construction refused *)
+  ("kmip/services/server/crypto/engine.py", "CryptographyEngine._encrypt_symmetric");  (* logger.exception: cipher operation *)
+  ("kmip/services/server/crypto/engine.py", "CryptographyEngine._encrypt_symmetric");  (* CryptographicFailure: encryption failed *)
+  ("kmip/services/server/crypto/engine.py", "CryptographyEngine._handle_symmetric_padding"); (* padding applied/removed *)
+  ("kmip/services/server/crypto/engine.py", "CryptographyEngine._decrypt_symmetric");  (* logger.exception: invalid key bytes *)
+  ("kmip/services/server/crypto/engine.py", "CryptographyEngine._decrypt_symmetric");  (* InvalidField: mode construction refused *)
+  ("kmip/services/server/crypto/engine.py", "CryptographyEngine._decrypt_symmetric");  (* logger.exception: cipher operation *)
+  ("kmip/services/server/crypto/engine.py", "CryptographyEngine._decrypt_symmetric");  (* CryptographicFailure: decryption failed *)
   ("kmip/services/server/crypto/engine.py", "CryptographyEngine._create_rsa_key_pair");
+  ("kmip/services/server/crypto/engine.py", "CryptographyEngine.derive_key");          (* HKDF refused its parameters *)
+  ("kmip/services/server/crypto/engine.py", "CryptographyEngine.derive_key");          (* PBKDF2 refused its parameters *)
+  ("kmip/services/server/crypto/engine.py", "CryptographyEngine.derive_key");          (* KBKDF refused its parameters *)
   ("kmip/services/server/crypto/engine.py", "CryptographyEngine.wrap_key");   (* CryptographicFailure(str(e)): reaches the CLIENT *)
   ("kmip/services/server/engine.py", "KmipEngine._process_batch");            (* every unexpected exception of an operation *)
   ("kmip/services/server/engine.py", "KmipEngine._process_delete_attribute"); (* except ValueError *)
